@@ -26,7 +26,7 @@ ASSUMPTIONS = ['for immutable_warranty="copy" the original container is not '
                'mutated (the statement exempts it)']
 SHARD_TIMEOUT = {'quick': 300, 'thorough': 3000}
 LIMITS = {'quick': dict(L=2, stride2=16, nrand=24, disk_hist=20),
-          'thorough': dict(L=3, stride2=1, nrand=1500, disk_hist=600)}
+          'thorough': dict(L=3, stride2=1, stride3=97, nrand=1500, disk_hist=600)}
 
 
 def example(i):
@@ -303,6 +303,11 @@ def run_shard(spec, res):
         else:
             hists = []
             for L in range(1, spec['L'] + 1):
+                if L >= 3:
+                    st = spec.get('stride3', 97)
+                    hists += list(itertools.islice(itertools.product(steps, repeat=L),
+                                                   spec['seed'] % st, None, st))
+                    continue
                 hs = list(itertools.product(steps, repeat=L))
                 if L >= 2 and spec['stride2'] > 1:
                     # quick tier: a seed-dependent residue class of the
